@@ -231,7 +231,7 @@ class Seq:
         if is_call(it, ITER_MAP) and len(it[2]) == 2:
             f = apply_fn(self.prog, it[2][1], [X])
             if f is None and it[2][1][0] == "fn":
-                f = ("call", it[2][1][2], (X,))          # a named function used as the mapper
+                f = ("call", it[2][1][2], (X,), ("<fn-item>", it[2][1][1]))    # a named function used as the mapper
             if f is None:
                 return unknown("mapper %s" % show(it[2][1])[:60])
             return ("map", strip_sites_f(f), self.of_iter(it[2][0], depth + 1, at))
@@ -354,7 +354,7 @@ class Seq:
         v, f = call[2]
         body = apply_fn(self.prog, f, [X])
         if body is None and f[0] == "fn":
-            body = ("call", f[2], (X,))
+            body = ("call", f[2], (X,), ("<fn-item>", f[1]))
         if body is None:
             return unknown("converter %s" % show(f)[:60])
         return ("map", ("tryok", strip_sites_f(body)), ("elems", ("field", ("variant", strip_sites_f(v), "Array"), "0"), 0, None))
